@@ -186,6 +186,8 @@ pub fn prop() -> HistProp {
     w.whitelist = 3;
     // the pauser role changes hands: to a trading account and back (holding a role is not being whitelisted)
     w.handover = 2;
+    // trading is halted, a liquidation happens meanwhile, trading resumes: all within one block
+    w.paused_liq = 3;
     HistProp {
         id: "C16",
         level: "exploration",
